@@ -10,10 +10,11 @@ THEOREMS = {
     "C02": ["lin_statistics", "stat_linear", "gram_accumulates", "k1_counterexample", "k1_lambda_one", "linucb_columns",
             "reshape_rowwise", "squeeze_counterexample", "fitRec_append"],
     "C03": ["radius_exact", "euclid_via_squares", "knn_override_valid", "nanInv_init", "nanInv_addArm", "nanInv_removeArm",
-            "empty_nhood_exps", "nhood_from_scratch", "fit_discards"],
+            "empty_nhood_exps", "nhood_from_scratch", "fit_discards", "knn_valid", "sorted_pairs"],
     "C04": ["noninterference_private", "shared_default_counterexample", "world_step_deterministic", "private_copy_frame"],
     "C05": ["partition_exact_cover", "effectiveJobs_bounds", "splitBySizes_flatten", "chunked_map", "predict_any_partition",
-            "fit_tasks_commute", "parallelFitIn_closed", "Py.Dict.foldl_modify"],
+            "fit_tasks_commute", "parallelFitIn_closed", "Py.Dict.foldl_modify",
+            "chunkFold_congr", "chunk_split", "nhoodRow_config", "sameConfig_fit", "predictChunk_eq_chunkFold"],
     "C06": ["incremental_eq_batch", "spec_chunked", "rowsOf_append", "fitRec_append", "first_partial_is_fit", "neighbors_history"],
     "C07": ["fit_discards", "resetFor_congr", "sameConfig_fresh", "fit_after_history_eq_fresh"],
     "C08": ["keys_eq_arms", "added_immediately", "removed_never_returns", "arms_unchanged_by_training", "unwrap_shape",
@@ -21,7 +22,8 @@ THEOREMS = {
     "C09": ["argmax_first", "foldMax_spec", "argmaxFirst_mem", "predict_eq_argmax", "leWith_val"],
     "C10": ["predictExp_readonly", "predict_readonly", "impPredict_readonly", "query_readonly"],
     "C11": ["hash_scale_invariant", "vecMul_scale", "hash_zero_projection", "planes_fixed_at_fit", "lsh_partial_hist",
-            "lsh_nhood_union"],
+            "lsh_nhood_union", "lshInsert_getD", "mem_hashIdx", "hashIdx_append", "lshInv_fit", "lshInv_partialFit",
+            "lsh_nhood_exact", "self_collision"],
     "C12": ["clusters_cell_rows", "clusters_cell_from_scratch", "clusters_partial_hist", "clusters_query_cell",
             "tree_unobserved_arm", "tree_fit_empty_batch_arm"],
     "C13": ["ws_pairs_spec", "ws_target", "ws_untouched", "cold_arms_spec", "cold_not_trained", "coldToWarm_targets",
@@ -44,7 +46,7 @@ IMPORTS = {
     "C02": ["MabModel.Props.C02"],
     "C03": ["MabModel.Props.C03"],
     "C04": ["MabModel.Props.C04"],
-    "C05": ["MabModel.Props.C05"],
+    "C05": ["MabModel.Props.C05", "MabModel.Props.C05b"],
     "C06": ["MabModel.Props.C06"],
     "C07": ["MabModel.Props.C07"],
     "C08": ["MabModel.Props.C08"],
